@@ -34,7 +34,7 @@ THEOREMS = ["region_word_selects", "single_chip", "add_inv", "insert_all", "comp
             "compress_exact", "exact_select_iff", "compress_sorted", "compress_keys", "chipsOf_spec",
             "exactB_iff", "nodupB_iff", "strictB_iff", "oracle_decides",
             "c09_selects_agree", "c09_selectsCore_agree", "c09_strictlyIncreasing_agree",
-            "c09_regions_contract", "c09_compressOK", "subtree_insert"]
+            "c09_regions_contract", "c09_compressOK", "subtree_insert", "emit_not_sorted"]
 
 RULE = ("target sets built from shapes: sparse points (whole grid or a small window), aligned full blocks of side "
         "4/16/64 (and 256 in the thorough tier) for a random core set with 0-3 holes (a hole removes some or all cores "
